@@ -58,6 +58,9 @@ pub struct Log {
     /// (virtual) deadline by a wide margin; unwinding with BudgetTrip keeps the checks fast
     /// when a change under test makes a planner spin
     pub sample_budget: Option<u64>,
+    /// per-call pacing of the virtual clock: the k-th sampler call of the current public call
+    /// costs `tick_plan[k]` instead of `tick_sample` (beyond the plan: `tick_sample`)
+    pub tick_plan: Option<Vec<u64>>,
 }
 pub type LogRc = Rc<RefCell<Log>>;
 
@@ -81,7 +84,15 @@ impl Log {
             worst_late_ns: 0,
             samples_in_call: 0,
             sample_budget: None,
+            tick_plan: None,
         }))
+    }
+    /// cost of the sampler call that has just been counted by `on_sampler_begin`
+    pub fn sample_tick(&self) -> u64 {
+        match &self.tick_plan {
+            Some(p) => p.get(self.samples_in_call.saturating_sub(1) as usize).copied().unwrap_or(self.tick_sample),
+            None => self.tick_sample,
+        }
     }
     pub fn push(&mut self, ev: Ev) {
         if self.keep_events {
@@ -194,7 +205,7 @@ impl<K: Kit> StateSpace for MonSpace<K> {
             }
             Err(_) => l.push(Ev::UniformErr),
         }
-        let t = l.tick_sample;
+        let t = l.sample_tick();
         drop(l);
         oxmpl::verif::advance(t);
         r
@@ -313,7 +324,7 @@ impl<K: Kit> GoalSampleableRegion<K::S> for MonGoal<K> {
             }
             Err(_) => l.push(Ev::GoalSampleErr),
         }
-        let t = l.tick_sample;
+        let t = l.sample_tick();
         drop(l);
         oxmpl::verif::advance(t);
         r
